@@ -191,8 +191,11 @@ func runScenarioMode(t *testing.T, mode string, rep *Report, rng *rand.Rand, n i
 			seed := mix(rep.Seed, int64(k), 99)
 			sc := g(rand.New(rand.NewSource(seed)), seed)
 			sc.Name = fmt.Sprintf("%s#%d", sc.Name, k)
-			if mix(seed, 7711)%4 == 0 {
+			switch mix(seed, 7711) % 4 {
+			case 0:
 				sc.MockErrs = true // every fourth scenario of every generator: the mock store's wording of refusals
+			case 1:
+				sc.BareSeq = true // another fourth: a refused Create in the server's own words only
 			}
 			if p := os.Getenv("NLE_OUT"); p != "" {
 				os.WriteFile(p+"/current-scenario.json", []byte(sc.JSON()), 0o644)
